@@ -144,3 +144,12 @@ def count(prop):
 
 def get(prop, k):
     return copy.deepcopy(ALL[k])
+
+
+def explorable():
+    """Indices of the pinned scenarios that are deterministic apart from tie resolutions (lattice times, no random routing /
+    probabilistic choices of their own): the tie explorer enumerates resolutions of these."""
+    names = {'blocking_ring', 'blocking_tandem_priorities', 'renege_unblocks', 'ddc_priorities_lifo', 'schedule_preemptive_cycles',
+             'capacity_batches', 'class_change_time_two_nodes', 'reroute_then_jsq', 'slotted_capacitated_preempt', 'renege_and_jockey',
+             'overtime_blocked_zero_shift', 'preempt_with_overtime_server'}
+    return [k for k, sp in enumerate(ALL) if sp['name'] in names]
